@@ -40,6 +40,11 @@ CHECKS = {
    text="For every column type and composition, every history of up to 3 (quick) / 4 (thorough) steps over {Append symbolic value, Reset, encode-without-reset, block decode of valid symbolic data into the used column, failed decode of a truncated block + Reset} is executed on ONE column object; after encode steps and at the end the bytes the used column produces (EncodeRawBlock: Prepare, state, column) are read back into a fresh column and the solver decides that they equal the harness' plain list of model values; decode-after-use must equal the decoded values. Values are symbolic, so 'same value again' and 'new value' are one path each and the solver picks the equality pattern.",
    ref="DESIGN.md §4 C16",
    note="bounds: histories <=3/4 steps, strings 1 byte, inner arrays 1 element in quick (0..1 thorough), decode blocks of 0..2 rows, revision fixed 54460; WriteColumn path equivalence is C14's; Infer-in-history is not a step (types fixed per column)"),
+ "C20": dict(
+   level="model_checking",
+   text="The real conversion functions (ToDate/Date.Time, ToDate32, ToDateTime, ToDateTime64/DateTime64.Time at each precision 0..9, Precision.Scale, Int128/256 and UInt128/256 helpers, bin*/binPut*, IPv4/IPv6 mappings, Interval.Add) and the parts of package time they call (Unix, In, Zone, FixedZone, Add, IsZero) are executed symbolically; the raw value ranges over its WHOLE type or documented range (all 65536 Dates, all 2^32 DateTimes, Date32 1900..2299, DateTime64 1900..2299 per precision), the instant (sec,nsec) and the fixed zone offset (-12h..+14h) are symbolic; the solver (integer-with-wrap encoding, z3 5.1.0) decides value->time->value identity, calendar-day = floor((unix+offset)/86400), |time->value->time| < 1 tick and exactness on multiples of the tick.",
+   ref="DESIGN.md §4 C20",
+   note="outside: named zones with DST (tzdata), AddDate's own calendar arithmetic (uninterpreted function of its arguments), intervals whose span exceeds time.Duration (about 292 years); netip 4/16-byte conversions modelled as identity; known finding: quarter added as 4 months (pinned by the repo's own test, so not repaired)"),
 }
 
 NA = {
